@@ -248,15 +248,20 @@ def fourier_1d(kind, f):
 # --------------------------------------------------------------------------- GSL-div
 def symbolise(x, nb):
     lo, hi = float(np.min(x)) - EPS_GSL, float(np.max(x)) + EPS_GSL
-    edges = [lo + (hi - lo) * i / nb for i in range(nb + 1)]
-    edges[-1] = hi
+    # the documented bin edges: nb + 1 equally spaced points from min - eps to max + eps; a value exactly ON an edge belongs to the
+    # bin below it (the docstring example: 4 -> 1 and 7 -> 2 for edges 1, 4, 7, 10).  The equally spaced points are taken both
+    # from numpy.linspace and from the plain formula: where the two agree bit for bit the edge is what the definition says and
+    # an exact hit is decided; a value within 1e-12 of an edge that is not such an exact hit stays undecided (near_edge)
+    e_np = [float(v_) for v_ in np.linspace(lo, hi, nb + 1)]
+    e_pl = [lo + (hi - lo) * i / nb for i in range(nb + 1)]
+    e_pl[-1] = hi
     sym, near_edge = [], False
     for v in x:
         s = 0
-        for e in edges:
-            if e < v:
+        for a_, b_ in zip(e_np, e_pl):
+            if a_ < v:
                 s += 1
-            if abs(e - v) <= 1e-12 * max(1.0, abs(v)):
+            if abs(a_ - v) <= 1e-12 * max(1.0, abs(v)) and not (a_ == b_ == v):
                 near_edge = True
         sym.append(s)
     return sym, near_edge
